@@ -2,7 +2,7 @@
    files: the model pipeline (prune + writer + printer) against the bytes of
    the file written by the real run. *)
 From Coq Require Import List NArith ZArith Bool String Ascii PrimFloat.
-From T4V Require Import Base.Str Base.Cases C08.Model.
+From T4V Require Import Base.Str Base.Cases Base.Scalar C08.Model C08.SurfEq C08.Parse.
 From Coq Require Import Uint63.
 Import ListNotations.
 Open Scope string_scope.
@@ -34,22 +34,23 @@ Example U_selftest :
   = " !""#$%&'()*+,-./0123456789:;<=>?@ABCDEFGHIJKLMNOPQRSTUVWXYZ[\]^_`abcdefghijklmnopqrstuvwxyz{|}~".
 Proof. vm_compute. repeat split. Qed.
 
-(* SurfaceT4.__eq__: type, parameters (numeric ==), transform (numpy ==) *)
-Definition payload := (string * list float * option (list float))%type.
+(* SurfaceT4.__eq__: type, parameters (numeric ==), transform (numpy ==): the scalar-generic
+   definition of C08/SurfEq.v at binary64 (at R it is proved symmetric and transitive) *)
+Definition payload := spayload float.
 
-Definition payload_eqb (a b : payload) : bool :=
-  let '(ta, pa, xa) := a in
-  let '(tb, pb, xb) := b in
-  String.eqb ta tb && list_eqb PrimFloat.eqb pa pb && option_eqb (list_eqb PrimFloat.eqb) xa xb.
+Definition payload_eqb : payload -> payload -> bool := spayload_eqb FS.
 
 Definition err_name (e : err) : string :=
   match e with EKey => "KeyError" | EValue => "ValueError" | EFuel => "fuel" end.
 
-(* what the real run did: exception class name ("" = none) and the lines of
-   the written file after the // header (None = no file) *)
-Definition observed := (string * option (list string))%type.
+(* what the real run did: exception class name ("" = none) and the text of the written file
+   after the // header, as ONE string (None = no file); the lines are recovered by the
+   reader's own lines_of *)
+Definition observed := (string * option string)%type.
 
-Definition run_model (c : bool * Z * Z * wstate payload) : observed :=
+Definition model_result := (string * option (list string))%type.
+
+Definition run_model (c : bool * Z * Z * wstate payload) : model_result :=
   let '(skip_dedup, u0, u1, w) := c in
   match convert_tail payload_eqb skip_dedup u0 u1 w with
   | Err e => (err_name e, None)
@@ -58,15 +59,25 @@ Definition run_model (c : bool * Z * Z * wstate payload) : observed :=
   | Ok (Raised f e) => (err_name e, Some (print_file f))
   end.
 
-Definition observed_eqb (a b : observed) : bool :=
-  String.eqb (fst a) (fst b) && option_eqb (list_eqb String.eqb) (snd a) (snd b).
+Definition obs_lines (o : observed) : option (option (list string)) :=
+  match snd o with
+  | None => Some None
+  | Some t => match lines_of t with Some ls => Some (Some ls) | None => None end
+  end.
+
+Definition observed_eqb (a : model_result) (b : observed) : bool :=
+  String.eqb (fst a) (fst b)
+  && match obs_lines b with
+     | Some ls => option_eqb (list_eqb String.eqb) (snd a) ls
+     | None => false            (* the text does not end with a newline *)
+     end.
 
 Definition check_case (c : (bool * Z * Z * wstate payload) * observed) : bool :=
   observed_eqb (run_model (fst c)) (snd c).
 
 (* ---- verdicts: the spec evaluated on the model's file vs the independent
    validator of the written bytes; and the guard of C08_write_wf ------------- *)
-From T4V Require Import C08.Spec C08.Check.
+From T4V Require Import C08.Spec C08.Check C08.ProofsGiven C08.CheckText.
 
 Definition final_state (c : bool * Z * Z * wstate payload)
   : option (option (list (Z * Z)) * wstate payload) :=
@@ -89,8 +100,8 @@ Definition check_verdict (c : (bool * Z * Z * wstate payload) * observed * bool)
   | None => true
   | Some (ren, w) =>
       match write_file ren w with
-      | Complete f => Bool.eqb (wf_fileb f) valid
-      | Raised f _ => Bool.eqb (wf_fileb f) valid
+      | Complete f => Bool.eqb (wf_fileb f && file_numbers_okb f) valid
+      | Raised f _ => Bool.eqb (wf_fileb f && file_numbers_okb f) valid
       | Died _ _ _ => negb valid
       end
   end.
@@ -115,3 +126,22 @@ Definition stage0_ok (c : (bool * Z * Z * wstate payload) * observed * bool) : b
 
 Definition stage0_or_invalid (c : (bool * Z * Z * wstate payload) * observed * bool) : bool :=
   let '(_, _, valid) := c in stage0_ok c || negb valid.
+
+(* ---- the Coq reader on the bytes of the real file: it must accept exactly the files the
+   independent validator accepts, re-printing what it read must give the same bytes, and
+   the spec evaluated on what it read must agree with the validator ---------------------- *)
+Definition check_reader (c : (bool * Z * Z * wstate payload) * observed * bool) : bool :=
+  let '(_, obs, valid) := c in
+  match snd obs with
+  | None => true
+  | Some t =>
+      match parse_t4 t with
+      | Some f => String.eqb (print_t4 f) t && Bool.eqb (wf_fileb f && file_numbers_okb f) valid
+      | None => negb valid
+      end
+  end.
+
+(* hypotheses of the text-level theorems on the snapshot: the strings of the tables are
+   words (C08_written_text_wf) and the numeric strings are finite numbers (C08_numbers_finite) *)
+Definition text_ok (c : (bool * Z * Z * wstate payload) * observed * bool) : bool :=
+  let '((_, _, _, w), _, _) := c in words_okb w && state_numbers_okb w.
